@@ -23,8 +23,13 @@ vars == <<ii, done>>
 x == Insts[ii]
 Key(t, ph) == (CHOOSE p \in {t.ht[i] : i \in DOMAIN t.ht} : p[1] = ph)[2]
 \* dictionary = [keys : sequence in insertion order, cnt : key -> count]
-BaseDict(t) == [keys |-> [i \in DOMAIN t.base |-> t.base[i][1]],
-                cnt |-> [k \in {t.base[i][1] : i \in DOMAIN t.base} |-> (CHOOSE p \in {t.base[i] : i \in DOMAIN t.base} : p[1] = k)[2]]]
+\* base entries whose keys coincide (two base phrases hashed into one column) add up; keys keep their first-seen order
+BaseKeysFrom(t) == LET ks == [i \in DOMAIN t.base |-> t.base[i][1]]
+                   IN SelectSeq([i \in DOMAIN ks |-> IF \E j \in 1..(i - 1) : ks[j] = ks[i] THEN <<>> ELSE <<ks[i]>>], LAMBDA e : e # <<>>)
+BaseDict(t) == [keys |-> [i \in DOMAIN BaseKeysFrom(t) |-> BaseKeysFrom(t)[i][1]],
+                cnt |-> [k \in {t.base[i][1] : i \in DOMAIN t.base} |->
+                           SumSeq([i \in DOMAIN t.base |-> IF t.base[i][1] = k THEN t.base[i][2] ELSE 0])]]
+BaseTotal(t) == SumSeq([i \in DOMAIN t.base |-> t.base[i][2]])
 RECURSIVE Parse(_, _, _, _, _)
 Parse(t, s, start, end, d) ==
    IF end >= Len(s) THEN d
@@ -46,7 +51,7 @@ Total(d) == SumSeq([i \in DOMAIN d.keys |-> d.cnt[d.keys[i]]])
 CapHit(t, s) == Len(RowDict(t, s).keys) >= t.maxDict
 \* C16: the row total is the string length plus the base counts whenever the cap was not reached
 RowTotal == \A i \in DOMAIN x.train : ~CapHit(x, x.train[i]) =>
-               Total(RowDict(x, x.train[i])) = Len(x.train[i]) + Total(BaseDict(x))
+               Total(RowDict(x, x.train[i])) = Len(x.train[i]) + BaseTotal(x)
 \* never more phrases than the cap (beyond what the base dictionary already holds), never more columns than max_columns
 WithinBudget == /\ \A i \in DOMAIN x.train : Len(RowDict(x, x.train[i]).keys) <= Max2(x.maxDict, Len(x.base))
                 /\ (x.ncols > 0 => Len(Columns(x)) <= x.ncols)
